@@ -91,6 +91,12 @@ async def infinite_watch(
                     # If it has escalated after all the retries, go back to trying anyway.
                     # This stream is not allowed to fail, unlike other regular requests.
                     pass
+                except errors.APIClientError as ex:
+                    # "410 Gone" (a too old resource version) can also come as the HTTP status
+                    # of the watch request itself, not only as an ERROR event inside the stream.
+                    # Restart with a fresh listing in both cases; other errors are still fatal.
+                    if ex.status != 410:
+                        raise
             await asyncio.sleep(settings.watching.reconnect_backoff)
     finally:
         logger.debug(f"Stopping the watch-stream for {resource} {where}.")
